@@ -52,8 +52,8 @@ TEXT = {
             "GFF3 values of 2+ bytes and other GFF3 columns, BED writer and numeric columns, record-level round trips, attribute ordering outside.", TECH_KANI),
     "C19": ("§9 C19", "Narrow, solver-decided CRAM query/index kernels: the real Query state machine yields a pending record iff it is on the queried reference and intersects (symbolic ids/positions), ReferenceSequenceContext::update one-step fold and raw-triple conversion.",
             "Container walking, slice decoding and CRAI text I/O outside.", TECH_KANI),
-    "C20": ("§5 C20", "Narrow, solver-decided magic-number kernels of format autodetection on a symbolic window, incl. no-confusion for SAM writer output.",
-            "Compressed branch (flate2) and record-preserving conversions outside.", TECH_KANI),
+    "C20": ("§5 C20", "Narrow, solver-decided: magic-number kernels of format autodetection on a symbolic window, incl. no-confusion for SAM writer output; and the writer side of the pairing: the real generic alignment and variant writer builders run on a symbolic configuration (format x compression in {unset, explicitly none, BGZF}) build exactly the configured writer stack (found and fixed F27: BCF compression arms swapped).",
+            "Compressed branch (flate2), the CRAM writer configuration, the bytes the stacks emit and record-preserving conversions outside.", TECH_KANI),
 }
 
 NA = {
